@@ -173,7 +173,9 @@ where
                 Poll::Pending => (),
             }
 
-            if server.is_some() {
+            // Only pull the next reply once the previous one has been handed over, otherwise
+            // a momentarily slow requestor would cause it to be overwritten.
+            if server.is_some() && buffered_rep.is_none() {
                 let st = &mut server.as_mut().as_pin_mut().unwrap().1;
 
                 match st.poll_next_unpin(cx) {
